@@ -54,6 +54,10 @@ def tdata_json(name, arr, td):
     if len(qp["scales"]):
         bits = {np.dtype("int8"): 8, np.dtype("int16"): 16, np.dtype("int32"): 32, np.dtype("int64"): 64}[arr.dtype]
         zps = np.asarray(qp["zero_points"])
+        if len(zps) == 1 and len(qp["scales"]) > 1:
+            # a prepared kernel may report its per-tensor scale expanded per channel with ONE zero point (cf. D32): numpy broadcasts the
+            # single zero point against the scales, the model takes lists of equal length
+            zps = np.repeat(zps, len(qp["scales"]))
         return {"name": name, "kind": "quant", "q": fa.iarr(arr),
                 "qp": {"bits": bits, "qdim": int(qp["quantized_dimension"]), "sym": bool(np.sum(np.abs(zps)) == 0),
                        "scale": fa.farr(np.asarray(qp["scales"])), "zp": fa.iarr(zps)}}
@@ -123,7 +127,16 @@ def cmp_validate(ctx, drv, ref_mb, tgt_mb, data, metric, family="validate"):
             continue
         if "ok" not in m:
             if m.get("err") != "nonfinite":
-                ctx.disagree(family, small, str(m)[:200], "ok")
+                sizes = []
+                for sj in smp_json:
+                    tm = {t["name"]: t for t in sj["target"]}
+                    for t in sj["ref"]:
+                        u = tm.get(t["name"])
+                        if u is not None:
+                            nr, nt = len(t.get("data", t.get("q", {}).get("data", []))), len(u.get("data", u.get("q", {}).get("data", [])))
+                            if nr != nt:
+                                sizes.append([t["name"], nr, nt])
+                ctx.disagree(family, dict(small, element_counts_differ=sizes[:4]), str(m)[:200], "ok")
             continue
         got = rr[1][sig]
         for grp in ("inputs", "outputs", "constants", "intermediates"):
@@ -131,7 +144,12 @@ def cmp_validate(ctx, drv, ref_mb, tgt_mb, data, metric, family="validate"):
             if sorted(mg) != sorted(got[grp]):
                 ctx.disagree(family, small, {grp: sorted(mg)}, {grp: sorted(got[grp])})
                 break
-            bad = [k for k in mg if not close(float(got[grp][k]), mg[k])]
+            # numpy evaluates the metric in float32: a squared difference above 3.4e38 overflows to +inf where the model's ideal
+            # arithmetic yields a huge finite mean (tensors have far fewer than 1e8 elements, so a mean below 1e30 cannot overflow)
+            overflow = lambda k: metric == "mse" and float(got[grp][k]) == math.inf and float(mg[k]) >= 1e30  # noqa: E731
+            if any(overflow(k) for k in mg):
+                ctx.tag("mse_float32_overflow")
+            bad = [k for k in mg if not close(float(got[grp][k]), mg[k]) and not overflow(k)]
             if bad:
                 ctx.disagree(family, small, {bad[0]: float(mg[bad[0]])}, {bad[0]: float(got[grp][bad[0]])})
                 break
@@ -176,6 +194,11 @@ def oracle(ctx, ref_mb, tgt_mb, data, metric, real, fail, self_compare=False):
             got = float(flat[n])
             if self_compare and got != 0.0:
                 return fail(f"comparing a model with itself reports {got} for {n}", "self-nonzero")
+            if not math.isfinite(got):
+                # the library evaluates in float32: only a mean of squares beyond ~1e30 can overflow; anything else non-finite is not a metric value
+                if metric == "mse" and got == math.inf and want >= 1e30:
+                    continue
+                return fail(f"value reported for {n} is {got} (the documented metric of the sanitised contents is {want})", "value-nonfinite")
             if got < 0:
                 return fail(f"negative metric value for {n}", "negative")
             if abs(got - want) > 2e-4 * max(abs(got), abs(want)) + 1e-30:
